@@ -46,7 +46,10 @@ SEARCH_BUDGET = 150
 RULE = ('streams: scale (all kinds x 12 factors), split3 (trapezoids on/off raster), splitat (trap/triangle/extended '
         'trapezoid x zero/non-zero delay x every raster cut time from before 0 to after the end, with jitter), align '
         '(rf with ring-down, adc, trap, ext, arbitrary, delay, trigger, output; specs in any keyword order; negative '
-        'delays; invalid spec), modaxis (sequences with gradients on several axes, cold/warm cache, shared ids). '
+        'delays; invalid spec; inputs with library ids), modaxis (sequences with gradients on several axes, cold/warm '
+        'cache, ids shared between axes in the same block / only in different blocks / not at all), registered (events '
+        'registered with a Sequence carry library ids: outputs of scale_grad/align must not carry them and, stored with '
+        'add_block and decoded with get_block, must show the scaled / re-timed events; split parts must not carry them). '
         'Oracle = exact-Fraction rendering at corner times, +-raster/8, midpoints; field-by-field equality of everything '
         'else; deepcopy snapshots of the arguments. non-trivial = the call returned parts / events (not an error)')
 TRUSTED = ['binary64 arithmetic of NumPy is outside the model: sampled by correspondence (tolerance 1e-9*scale+1e-12)',
@@ -748,6 +751,8 @@ def gen_align_cases(rng, n):
             evs = [gen_align_event(rng, sysd, neg) for _ in range(1 if single else rng.randint(1, 4))]
             groups.append({'spec': sp, 'single': single, 'events': evs})
         c = {'stream': 'align', 'sys': sysd, 'groups': groups}
+        if rng.random() < 0.4:
+            c['ids'] = rng.choice(['some', 'all'])
         if rng.random() < 0.04:
             groups[-1]['spec'] = rng.choice(['middle', 'centre', 'Left'])
         cs.append(c)
@@ -767,6 +772,12 @@ def run_align(ctx, cases):
             evs = [build_event(d, system) for d in grp['events']]
             kwargs[grp['spec']] = evs[0] if grp['single'] else evs
             flat += [(grp['spec'], e) for e in evs]
+        if c.get('ids'):
+            # some inputs carry a library id (as after `ev.id = seq.register_*_event(ev)`)
+            for j, (_, e) in enumerate(flat):
+                if j % 2 == 0 or c['ids'] == 'all':
+                    e.id = 100 + j
+            ctx.count('align.inputs_with_library_id')
         before = [gl.snap(e) for _, e in flat]
         try:
             out = pp.align(**kwargs)
@@ -787,8 +798,9 @@ def run_align(ctx, cases):
             lens = [own_length(e) for _, e in flat]
             delays = [F(e.delay) for _, e in flat]
             line = 'go.align %d %s' % (len(flat), ' '.join(
-                '%d %s %s %s' % (SPEC_IDX.get(s, 5), qtok(l), qtok(dl), ztok(j))
-                for j, ((s, _), l, dl) in enumerate(zip(flat, lens, delays))))
+                '%d %s %s %s %s' % (SPEC_IDX.get(s, 5), qtok(l), qtok(dl), ztok(j),
+                                    ('1 ' + ztok(e.id)) if hasattr(e, 'id') else '0')
+                for j, ((s, e), l, dl) in enumerate(zip(flat, lens, delays))))
             invalid = any(s not in SPEC_IDX for s, _ in flat)
             negtotal = any(l + dl < 0 for l, dl in zip(lens, delays))
             if negtotal and not invalid:
@@ -828,7 +840,10 @@ def run_align(ctx, cases):
                         bad = ('C18/align-delay-' + s, {'index': j, 'kind': e.type, 'delay': float(o.delay),
                                                         'expected': float(w), 'common_duration': float(D)})
                         break
-                    dd = gl.same_obj(b, o, ignore=('delay',))
+                    if hasattr(o, 'id'):
+                        bad = ('C18/align-keeps-library-id', {'output_index': j, 'id': repr(o.id), 'kind': e.type})
+                        break
+                    dd = gl.same_obj(b, o, ignore=('delay', 'id'))
                     if dd is not None:
                         bad = ('C18/align-changes-other-field', dict(dd, index=j, kind=e.type))
                         break
@@ -859,13 +874,17 @@ def run_align(ctx, cases):
                 t.q()
                 md = t.q()
                 t.z()
+                mid = t.opt(t.z)
                 if abs(md - F(out[j].delay)) > Fraction(1, 10 ** 12):
                     ctx.mismatch('align', c, {'index': j, 'model': float(md), 'impl': float(out[j].delay)})
+                    break
+                if (mid is None) != (not hasattr(out[j], 'id')):
+                    ctx.mismatch('align', c, {'index': j, 'model_id': mid, 'impl_id': getattr(out[j], 'id', None)})
                     break
 
 
 # ------------------------------------------------------------------------------------------------
-# stream: mod_grad_axis / flip_grad_axis (implementation + oracle only)
+# stream: mod_grad_axis / flip_grad_axis (implementation, oracle, and the store model of Model/ModAxis.v)
 def gen_modaxis_cases(rng, n):
     cs = []
     for i in range(n):
@@ -920,7 +939,27 @@ def gen_modaxis_cases(rng, n):
                 evs2.append({'kind': 'delay', 'delay': 5e-3})
             blocks.append(evs2)
         flip = rng.random() < 0.3
-        cs.append({'stream': 'modaxis', 'sys': sysd, 'blocks': blocks, 'axis': rng.choice(gl.CHN), 'flip': flip,
+        axis = rng.choice(gl.CHN)
+        # planted sharing of one library id between two axes: in the same block, or only in different blocks where the
+        # block holding it on one axis has NO gradient on the other axis (e.g. identical x and y spoilers)
+        plant = rng.choice(['none', 'none', 'same', 'different', 'different'])
+        if plant != 'none':
+            g = dict(rng.choice(pool))
+            a_ax = axis
+            b_ax = rng.choice([ch for ch in gl.CHN if ch != a_ax])
+            c_ax = [ch for ch in gl.CHN if ch not in (a_ax, b_ax)][0]
+            if rng.random() < 0.5:
+                a_ax, b_ax = b_ax, a_ax          # the flipped axis is the one of the lonely occurrence / of the pair
+            third = [dict(p, ch=c_ax) for p in pool if p['ch'] == c_ax]
+            if plant == 'same':
+                blk = [dict(g, ch=a_ax), dict(g, ch=b_ax)]
+                blocks.insert(rng.randint(0, len(blocks)), blk)
+            else:
+                blk_a = [dict(g, ch=a_ax)] + ([dict(rng.choice(third))] if third and rng.random() < 0.5 else [])
+                blk_b = [dict(g, ch=b_ax)] + ([dict(rng.choice(third))] if third and rng.random() < 0.5 else [])
+                blocks.insert(rng.randint(0, len(blocks)), blk_a)
+                blocks.insert(rng.randint(0, len(blocks)), blk_b)
+        cs.append({'stream': 'modaxis', 'sys': sysd, 'blocks': blocks, 'axis': axis, 'flip': flip, 'plant': plant,
                    'mod': -1 if flip else rng.choice([-1, 2, 0.5, -0.25, 0, 3, 1]), 'cache': rng.random() < 0.6,
                    'warm': rng.random() < 0.7, 'twice': rng.random() < 0.2})
     return cs
@@ -1053,6 +1092,12 @@ def _run_modaxis(ctx, cases, pp, model_jobs):
         ctx.count('modaxis.%s%s%s' % ('shared' if shared else 'plain', '.cache' if c['cache'] else '',
                                       '.warm' if c['warm'] and c['cache'] else ''))
         if shared:
+            # does a block that plays the shared id on ANOTHER axis also play a gradient on the selected axis?
+            coexist = any(v[2 + col] != 0 and any(v[2 + j] in (sel & oth) for j in range(3) if j != col)
+                          for v in evtab.values())
+            ctx.count('modaxis.shared.%s' % ('other-axis-use-in-a-block-with-the-axis' if coexist else
+                                             'other-axis-use-only-in-blocks-without-the-axis'))
+        if shared:
             if not isinstance(err, RuntimeError):
                 ctx.fail('C18/mod-axis-shared-id-not-refused', c, {'exception': repr(err)})
                 continue
@@ -1110,6 +1155,104 @@ def _run_modaxis(ctx, cases, pp, model_jobs):
 
 
 # ------------------------------------------------------------------------------------------------
+# stream: events registered with a Sequence (they carry library ids); outputs go to add_block and are decoded again
+def gen_zero_ended(rng, sysd, ch):
+    k = rng.random()
+    g = gen_trap(rng, sysd) if k < 0.5 else gen_ext(rng, sysd, zero_ends=True) if k < 0.8 else \
+        gen_arb(rng, sysd, zero_ends=True)
+    return dict(g, ch=ch)
+
+
+def gen_registered_cases(rng, n):
+    cs = []
+    for i in range(n):
+        sysd = gen_sys(rng)
+        op = rng.choice(['scale', 'scale', 'align', 'align', 'align', 'splitat', 'split3'])
+        c = {'stream': 'registered', 'op': op, 'sys': sysd}
+        if op == 'scale':
+            c['g'] = gen_zero_ended(rng, sysd, rng.choice(gl.CHN))
+            c['k'] = rng.choice(FACTORS) if rng.random() < 0.8 else rng.uniform(-3, 3)
+        elif op == 'align':
+            evs = []
+            if rng.random() < 0.5:
+                evs.append({'kind': 'rf', 'flip': 0.5, 'dur': rng.randint(10, 300) * 1e-5, 'delay': rng.choice([0.0, 1e-4])})
+            if rng.random() < 0.5:
+                evs.append({'kind': 'adc', 'num': rng.choice([16, 64]), 'dwell': rng.choice([1e-5, 4e-6]),
+                            'delay': rng.choice([0.0, 2e-5])})
+            for ch in gl.CHN:
+                if rng.random() < 0.6:
+                    evs.append(gen_zero_ended(rng, sysd, ch))
+            if not evs or rng.random() < 0.3:
+                evs.append({'kind': 'delay', 'delay': rng.randint(1, 400) * 1e-5})
+            rng.shuffle(evs)
+            c['events'] = [(rng.choice(['left', 'center', 'right']), e) for e in evs]
+        elif op == 'splitat':
+            g = gen_trap(rng, sysd) if rng.random() < 0.6 else gen_ext(rng, sysd)
+            c['g'] = g
+            ke = g['k'][0] + total_k(g)
+            c['K'] = rng.randint(1, max(1, ke - 1))
+        else:
+            c['g'] = gen_trap(rng, sysd, triangle=False)
+        cs.append(c)
+    return cs
+
+
+def run_registered(ctx, cases):
+    import pypulseq as pp
+    for c in cases:
+        system = gl.make_system(c['sys'])
+        raster = c['sys']['raster']
+        seq = pp.Sequence(system)
+        op = c['op']
+        ctx.count('registered.' + op)
+        try:
+            if op == 'align':
+                evs = [build_event(d, system) for _, d in c['events']]
+                gl.register_events(seq, evs)
+                kwargs = {}
+                for (sp, _), e in zip(c['events'], evs):
+                    kwargs.setdefault(sp, []).append(e)
+                ins = evs
+                outs = list(pp.align(**kwargs))
+            else:
+                g = gl.build_grad(c['g'], system)
+                gl.register_events(seq, [g])
+                ins = [g]
+                if op == 'scale':
+                    outs = [pp.scale_grad(g, c['k'])]
+                elif op == 'splitat':
+                    outs = list(pp.split_gradient_at(g, c['K'] * raster, system))
+                else:
+                    outs = list(pp.split_gradient(g, system))
+        except Exception as e:
+            ctx.evaluated(('registered', str(c)), nontrivial=False)
+            if op in ('scale', 'align'):
+                ctx.fail('C18/registered-%s-raises' % op, c, {'exception': repr(e)})
+            continue
+        ctx.evaluated(('registered', str(c)))
+        st = gl.stale_id(ins, outs)
+        if st is not None:
+            # the result is a new event; with the id of the input, add_block stores the INPUT event instead
+            ctx.fail('C18/%s-keeps-library-id' % ('split' if op.startswith('split') else op), c,
+                     {'output_index': st[0], 'id': repr(st[1]), 'kind': getattr(outs[st[0]], 'type', '?')})
+            continue
+        if op.startswith('split'):
+            continue            # the parts start/end away from zero: not addable on their own
+        try:
+            seq.add_block(*outs)
+        except Exception as e:
+            ctx.fail('C18/registered-%s-add-block-raises' % op, c, {'exception': repr(e)})
+            continue
+        sc = Fraction(1)
+        for o in outs:
+            if getattr(o, 'type', None) in ('grad', 'trap'):
+                sc = max(sc, amp_scale_of(o))
+        d = gl.stored_differs(seq, 1, outs, raster, sc)
+        if d is not None:
+            ctx.fail('C18/%s-stored-block' % op, c, d)
+
+
+# ------------------------------------------------------------------------------------------------
 def corpus():
     s = {'raster': 1e-5, 'max_grad': MAXG, 'max_slew': MAXS}
     t = {'kind': 'trap', 'ch': 'x', 'amp': 100000.0, 'rise': 2e-5, 'flat': 1e-3, 'fall': 2e-5, 'delay': 5e-5,
@@ -1132,11 +1275,16 @@ def corpus():
         {'stream': 'modaxis', 'sys': dict(s, ringdown=0.0, rf_dead=0.0, adc_dead=0.0), 'blocks': [
             [dict(t, delay=0.0), dict(e)], [dict(t, ch='z', amp=5e4, delay=0.0)]], 'axis': 'x', 'flip': True, 'mod': -1,
          'cache': True, 'warm': True, 'twice': False},                                      # FIX-11
+        # fixed: align kept the library id of registered events, add_block then stored the input with its old delay
+        {'stream': 'registered', 'op': 'align', 'sys': dict(s, ringdown=0.0, rf_dead=0.0, adc_dead=0.0), 'events': [
+            ['right', {'kind': 'trap', 'ch': 'y', 'amp': 1e5, 'rise': 1e-4, 'flat': 8e-4, 'fall': 1e-4, 'delay': 0.0}],
+            ['right', {'kind': 'trap', 'ch': 'z', 'amp': 5e4, 'rise': 1e-4, 'flat': 28e-4, 'fall': 1e-4, 'delay': 0.0}],
+            ['right', {'kind': 'adc', 'num': 64, 'dwell': 1e-5, 'delay': 0.0}]]},
     ]
     return cs
 
 
-RUNNERS_BY_STREAM = {'scale': run_scale, 'split3': run_split3, 'splitat': run_splitat, 'align': run_align,
+RUNNERS_BY_STREAM = {'registered': run_registered, 'scale': run_scale, 'split3': run_split3, 'splitat': run_splitat, 'align': run_align,
                      'modaxis': run_modaxis}
 
 
@@ -1154,19 +1302,28 @@ def run_cases(ctx, cases, chunk=400):
 
 def run(ctx):
     big = ctx.tier == 'thorough'
-    mult = 25 if big else 1
+    rounds = 25 if big else 1
     run_cases(ctx, corpus() + [KF9_CASE, TRIANGLE_CASE])
-    cases = []
-    cases += gen_scale_cases(ctx.rng('scale'), 400 * mult)
-    cases += gen_split3_cases(ctx.rng('split3'), 300 * mult)
-    cases += gen_splitat_cases(ctx.rng('splitat'), 130 * mult, 24 if not big else 60)
-    cases += gen_splitat_special(ctx.rng('splitat-special'), 120 * mult)
-    cases += gen_align_cases(ctx.rng('align'), 450 * mult)
-    cases += gen_modaxis_cases(ctx.rng('modaxis'), 150 * mult)
-    for i, c in enumerate(cases):
-        if i % 531 == 7:
-            ctx.sample(c)
-    run_cases(ctx, cases)
+    # the thorough tier (also used, time-boxed, when the source of a transcribed function changed) repeats the quick
+    # mix of ALL streams with fresh random streams, so that a time budget never starves the later streams
+    for rnd in range(rounds):
+        if ctx.out_of_time():
+            ctx.notes.append('time budget reached after %d of %d rounds' % (rnd, rounds))
+            break
+        sfx = '' if rnd == 0 else '#%d' % rnd
+        cases = []
+        cases += gen_modaxis_cases(ctx.rng('modaxis' + sfx), 200)
+        cases += gen_registered_cases(ctx.rng('registered' + sfx), 200)
+        cases += gen_scale_cases(ctx.rng('scale' + sfx), 400)
+        cases += gen_split3_cases(ctx.rng('split3' + sfx), 300)
+        cases += gen_splitat_cases(ctx.rng('splitat' + sfx), 130, 24 if not big else 40)
+        cases += gen_splitat_special(ctx.rng('splitat-special' + sfx), 120)
+        cases += gen_align_cases(ctx.rng('align' + sfx), 450)
+        if rnd == 0:
+            for i, c in enumerate(cases):
+                if i % 531 == 7:
+                    ctx.sample(c)
+        run_cases(ctx, cases)
 
 
 def replay(ctx, case):
